@@ -1015,11 +1015,12 @@ func (w *Worker) sliceOp(st *State, f *Frame, x *ssa.Slice) {
 		}
 		return t, true
 	}
-	if x.Max != nil {
-		panic(engineErr("3-index slice"))
-	}
+	maxT, hasMax := getB(x.Max)
 	switch b := w.get(st, f, x.X).(type) {
 	case Ptr: // pointer to array
+		if hasMax {
+			panic(engineErr("3-index slice of an array"))
+		}
 		p := w.ptr(st, b, x.Pos())
 		if len(p.path) != 0 {
 			panic(engineErr("slice of nested array"))
@@ -1049,11 +1050,17 @@ func (w *Worker) sliceOp(st *State, f *Frame, x *ssa.Slice) {
 		w.obligation(st, "slice-bounds", x.Pos(), mkOr(bvCmp("bvslt", loT, mkBV(0, 64)), bvCmp("bvsgt", hiT, capT), bvCmp("bvsgt", loT, hiT)))
 		lo := w.caseSplit(st, loT, 0, int64(b.cap))
 		hi := w.caseSplit(st, hiT, lo, int64(b.cap))
+		newCap := b.cap - int(lo)
+		if hasMax {
+			w.obligation(st, "slice-bounds", x.Pos(), mkOr(bvCmp("bvsgt", maxT, capT), bvCmp("bvslt", maxT, mkBV(uint64(hi), 64))))
+			mx := w.caseSplit(st, maxT, hi, int64(b.cap))
+			newCap = int(mx - lo)
+		}
 		if b.id == 0 {
 			f.env[x] = SliceV{}
 			return
 		}
-		f.env[x] = SliceV{b.id, b.off + int(lo), int(hi - lo), b.cap - int(lo)}
+		f.env[x] = SliceV{b.id, b.off + int(lo), int(hi - lo), newCap}
 	case StrV:
 		s, ok := b.concrete()
 		if !ok {
@@ -1462,10 +1469,12 @@ func (w *Worker) lookup(st *State, f *Frame, x *ssa.Lookup) {
 			}
 		}
 	} else {
-		// merge where possible, otherwise fork
-		merged := true
+		// merge scalar elements into an ite; interface-typed elements (Borno values in an
+		// environment or object) fork instead, so that later formatting and type switches see
+		// a definite value on each path (the oracles fork on the same key equalities anyway)
+		merged := !isInterface(elemT)
 		acc := res
-		for i := len(conds) - 1; i >= 0; i-- {
+		for i := len(conds) - 1; merged && i >= 0; i-- {
 			if conds[i].isFalse() {
 				continue
 			}
